@@ -29,6 +29,10 @@ type searcher interface {
 func newSearcher(repo gitstore.Storer) searcher {
 	persistentCache, err := cache.LoadPersistentCache(repo)
 	if err == nil {
+		// The RSL may have grown since the cache was written
+		err = persistentCache.CatchUp(repo)
+	}
+	if err == nil {
 		slog.Debug("Persistent cache found, loading cache RSL searcher...")
 		return newCacheSearcher(repo, persistentCache)
 	}
